@@ -7,6 +7,7 @@ import (
 	_ "vh/h3"
 	_ "vh/h4"
 	_ "vh/h1"
+	_ "vh/h6"
 )
 
 func TestSim(t *testing.T) { runner.Main(t) }
